@@ -478,6 +478,7 @@ pub fn horizon_of(case: &Case) -> u64 {
                     }
                 }
                 ClientOp::Sleep(t) => total += *t as u64,
+                ClientOp::BrokerHalt { .. } => total += 30,
                 _ => {}
             }
         }
@@ -1228,6 +1229,32 @@ async fn exec_op(me: usize, opi: usize, op: &ClientOp, table: &mut Table, all: &
                 counted(async { Broker::<Topic<1>>::from_registry().await.ping().await }).await
             };
             end(me, opi, res_unit(r), polls);
+        }
+        ClientOp::BrokerHalt { topic, wait } => {
+            let topic = *topic % 2;
+            log(EvKind::OpBegin { client: me, op: opi, what: OpWhat::BrokerHalt(topic), actor: None, via: None, msg: None });
+            async fn halt<T: hannibal::Message<Response = ()> + Clone>(wait: bool) -> bool {
+                let mut b = Broker::<T>::from_registry().await;
+                if b.stop().is_err() {
+                    return b.stopped();
+                }
+                if wait {
+                    let probe = b.clone();
+                    let _ = b.await;
+                    return probe.stopped();
+                }
+                // nobody awaits it: the termination has to show in stopped() on its own
+                for _ in 0..30 {
+                    if b.stopped() {
+                        return true;
+                    }
+                    let f = with_case(|c| c.sim.sleep_ticks(1));
+                    f.await;
+                }
+                b.stopped()
+            }
+            let gone = if topic == 0 { halt::<Topic<0>>(*wait).await } else { halt::<Topic<1>>(*wait).await };
+            end(me, opi, OpRes::Bool(gone), 0);
         }
         ClientOp::Feed { stream, n } => {
             let ctl = with_case(|c| {
